@@ -7,3 +7,14 @@ package federation
 // (setPlanner) while requests are executing, so every access needs the syncer's planner lock.
 //@ guarded_by Executor.syncer.plannerMu: Executors
 //@ guarded_by Syncer.plannerMu: planner
+
+// ---- C09: nullability lattice of merged type references (one level; the recursive calls are used by contract,
+// which is the induction hypothesis). An argument/input is required if any side requires it; an output is
+// non-null only if every side guarantees it. The base kind and name below the non-null wrapper must agree.
+//@ pred nn(t *introspectionTypeRef) = t.Kind == "NON_NULL"
+//@ pred inner(t *introspectionTypeRef) = ite(t.Kind == "NON_NULL", t.OfType, t)
+//@ func mergeTypeRefs
+//@   assigns nothing
+//@   ensures err == nil ==> result != nil && fresh(result)
+//@   ensures err == nil ==> (nn(result) <==> ite(isInput, nn(a) || nn(b), nn(a) && nn(b)))
+//@   ensures err == nil && !nn(inner(a)) && !nn(inner(b)) ==> inner(result).Kind == inner(a).Kind && inner(a).Kind == inner(b).Kind && (inner(a).Kind != "LIST" ==> inner(result).Name == inner(a).Name && inner(a).Name == inner(b).Name)
